@@ -2,10 +2,11 @@
 
     IMPL-MODELS (transliterations, bugs included):
       - [offset_to_location] : crates/jrsonnet-ir/src/location.rs offset_to_location, with the
-        iteration source as a parameter: [Cur] = `file.chars().enumerate()` (the code as it
-        is: CHARACTER indices compared with BYTE offsets, one match per position),
-        [Fixed] = the repair in fixes/C17-offset-to-location.diff (`char_indices()`, every
-        equal offset popped, byte length as file end);
+        iteration source as a parameter: [Cur] = the code as it is since /repo 6f9363a
+        (`file.char_indices()`: BYTE positions, every equal offset popped, byte length as file
+        end) — the IMPL-MODEL of record; [Old] = the transliteration of the code before that
+        commit (`file.chars().enumerate()`: CHARACTER indices compared with BYTE offsets, one
+        match per position), kept only for the `_old_` refutation lemmas;
       - [print_loc] : crates/jrsonnet-evaluator/src/trace/mod.rs print_code_location;
       - [lex_loop]  : the token loop of crates/jrsonnet-lexer/src/lex.rs over an abstract
         one-token matcher (logos' generated automaton + the text-block scanner);
@@ -81,9 +82,10 @@ Fixpoint set_le (idxs : list nat) (v : N) (out : list cloc) : list cloc :=
   | i :: r => set_le r v (upd i (fun c => mkloc (c_off c) (c_line c) (c_col c) (c_ls c) v) out)
   end.
 
-(** `match offset_map.last() { Some(x) if x.0 == pos => {...; offset_map.pop()} _ => {} }`
-    [multi = false]: exactly that, one match per position (the code as it is);
-    [multi = true] : `while let Some(x) = offset_map.last() { if x.0 != pos {break} ... }`. *)
+(** [multi = true]  (the code): `while let Some(x) = offset_map.last() { if x.0 != pos as u32
+                      {break} ...; offset_map.pop() }`;
+    [multi = false] (before 6f9363a): `match offset_map.last() { Some(x) if x.0 == pos =>
+                      {...; offset_map.pop()} _ => {} }`, one match per position. *)
 Fixpoint pop (multi : bool) (pos line col ls : N) (omap : list (N * nat)) (pend : list nat)
          (out : list cloc) : list (N * nat) * list nat * list cloc :=
   match omap with
@@ -118,18 +120,18 @@ Fixpoint enumerate_from (p : N) (cs : list N) : list (N * N) :=
 Fixpoint char_indices_from (p : N) (cs : list N) : list (N * N) :=
   match cs with [] => [] | c :: r => (p, c) :: char_indices_from (p + clen c) r end.
 
-Inductive version := Cur | Fixed.
+Inductive version := Old | Cur.
 
 (** `.chain(std::iter::once((file.len(), ' ')))` — file.len() is the BYTE length in both *)
 Definition items_of (v : version) (file : list N) : list (N * N) :=
   match v with
-  | Cur => enumerate_from 0 file ++ [(blen file, 32)]
-  | Fixed => char_indices_from 0 file ++ [(blen file, 32)]
+  | Old => enumerate_from 0 file ++ [(blen file, 32)]
+  | Cur => char_indices_from 0 file ++ [(blen file, 32)]
   end.
-Definition multi_of (v : version) : bool := match v with Cur => false | Fixed => true end.
-(** `let file_end = file.chars().count()` (Cur) / `file.len()` (Fixed) *)
+Definition multi_of (v : version) : bool := match v with Old => false | Cur => true end.
+(** `let file_end = file.chars().count()` (Old) / `file.len()` (Cur) *)
 Definition file_end_of (v : version) (file : list N) : N :=
-  match v with Cur => N.of_nat (length file) | Fixed => blen file end.
+  match v with Old => N.of_nat (length file) | Cur => blen file end.
 
 Definition offset_to_location (v : version) (file : list N) (offs : list N) : list cloc :=
   match offs with
@@ -163,8 +165,9 @@ Definition print_loc (s e : cloc) : N * N * option (option N * N) :=
 Definition printed_line (p : N * N * option (option N * N)) : N := fst (fst p).
 Definition printed_col (p : N * N * option (option N * N)) : N := snd (fst p).
 
-(** JsFormat::write_trace: "    at {desc} ({path}:{line}:{column})" with start_end[0] *)
-Definition print_js (s : cloc) : N * N := (c_line s, c_col s).
+(** JsFormat::write_trace (since /repo 2fd7ca2):
+    "    at {desc} ({path}:{line}:{column.saturating_sub(1)})" with start_end[0] *)
+Definition print_js (s : cloc) : N * N := (c_line s, c_col s - 1).
 
 (* ------------------------------------------------------------------ lexer loop / tiling *)
 (** A token list [(kind, start, end)] tiles [0, n): non-empty tokens, contiguous from 0,
@@ -296,7 +299,8 @@ Section Sink.
 End Sink.
 
 (* ------------------------------------------------------------------ known classes (findings) *)
-(** C17-loc-char-index-vs-byte-offset: some non-ASCII character among the first [max offs]
+(** classes of the OLD mapper (fixed in 6f9363a), used by the `_old_` lemmas only.
+    C17-loc-char-index-vs-byte-offset: some non-ASCII character among the first [max offs]
     characters of the file. *)
 Definition known_multibyte (file : list N) (offs : list N) : bool :=
   negb (forallb is_ascii (firstn (N.to_nat (fold_right N.max 0 offs)) file)).
